@@ -243,7 +243,7 @@ def directive_programs(tier):
     slots, menu, trails = (1, 2, 3, 4, 6), ("-", "dA", "eA"), (
         ("-", "-", "-", "-"), ("dA", "-", "-", "-"), ("-", "dA", "-", "-"), ("-", "-", "ig", "-"), ("-", "-", "-", "dC"))
   else:
-    slots, menu, trails = (1, 2, 3, 4, 5, 6), ("-", "dA", "eA", "dN"), (
+    slots, menu, trails = (1, 2, 3, 4, 6), ("-", "dA", "eA", "dN"), (
         ("-", "-", "-", "-"), ("dA", "-", "-", "-"), ("-", "dA", "-", "-"), ("-", "-", "ig", "-"), ("ig", "-", "dA", "-"),
         ("-", "bad", "-", "-"), ("-", "-", "-", "dC"), ("-", "-", "-", "ig"))
   for combo in itertools.product(menu, repeat=len(slots)):
